@@ -100,7 +100,11 @@ def fmt(t):
     if k == "lambda":
         return "<lambda@%d>" % t[1]
     if k == "closure":
-        return "<def %s>" % t[1]
+        try:
+            body = "; ".join(ast.unparse(x) for x in t[2].body)
+        except Exception:
+            body = "?"
+        return "<def %s: %s>" % (t[1], body)
     return repr(t)
 
 
